@@ -22,3 +22,8 @@ PROPS = {
 }
 
 NOT_APPLICABLE = {}
+
+# per-slice entries live in bin/props.d/*.py (each file adds to PROPS)
+import glob as _glob, os as _os
+for _f in sorted(_glob.glob(_os.path.join(_os.path.dirname(_os.path.abspath(__file__)), "props.d", "*.py"))):
+    exec(compile(open(_f).read(), _f, "exec"), {"PROPS": PROPS, "TRUSTED_BASE": TRUSTED_BASE, "NOT_APPLICABLE": NOT_APPLICABLE})
